@@ -74,7 +74,7 @@ func httpBody(c *runner.Ctx) {
 		if !r.doomed && c.Choose(6, "wild-request") == 1 {
 			c.Fault("arbitrary-arguments")
 			r.wild = true
-			r.text, r.vars = wildQuery(c)
+			r.text, r.vars = wildQuery(c, w)
 		}
 		r.cancelAt = c.Biased(6, 400, "http-cancel")
 		if c.Biased(4, 750, "http-panic") > 0 {
